@@ -407,9 +407,35 @@ static void tables_da(void) {
   DelMatrix(&auc); DelMatrix(&ap); DelMatrix(&yt); DelMatrix(&ys);
 }
 
+/* the statistic table a fitted MLR model carries (r2y_model, sdec; filled by MLR() through MLRPredictY): entry j is R2 / RMSE of
+ * (response j, recalculated response j) -- "the PLS/MLR statistic tables are those functions applied per response" */
+static void tables_mlr_model(void) {
+  int n = vx_choose("objects", 2) ? 12 : 6, p = 1 + vx_choose("p-1", 2), ny = 1 + vx_choose("ny-1", 4), scl = vx_choose("scale", 2), k = vx_choose("values", vx_thorough() ? 4 : 2);
+  double sc = scl ? 1e3 : 1.0;
+  matrix *mx, *my; NewMatrix(&mx, (size_t)n, (size_t)p); NewMatrix(&my, (size_t)n, (size_t)ny);
+  for (int i = 0; i < n; i++) {
+    for (int j = 0; j < p; j++) mx->data[i][j] = vg_val(720 + k, i, j) + 0.5 * j;
+    for (int j = 0; j < ny; j++) { double s = 1.5 + j; for (int q = 0; q < p; q++) s += (1.0 + 0.7 * q - 0.4 * j) * mx->data[i][q]; my->data[i][j] = sc * (s + (0.1 + 0.4 * j) * vg_val(740 + k, i, j)); }   /* noise level differs per response */
+  }
+  MLRMODEL *m; NewMLRModel(&m); MLR(mx, my, m, NULL); vx_transition(1);
+  char kb[120]; snprintf(kb, sizeof kb, "table|MLR-model|%s", ny > 1 ? "ny>1" : "ny=1");
+  int shp = (int)m->r2y_model->size == ny && (int)m->sdec->size == ny && (int)m->recalculated_y->row == n && (int)m->recalculated_y->col == ny;
+  vx_check(shp, kb, "n=%d p=%d ny=%d: r2y_model has %zu, sdec %zu entries, recalculated_y is %zux%zu", n, p, ny, m->r2y_model->size, m->sdec->size, m->recalculated_y->row, m->recalculated_y->col);
+  uint64_t h = 43; static double a[NMAXV], b[NMAXV];
+  for (int j = 0; shp && j < ny; j++) {
+    col_to(my, j, a); col_to(m->recalculated_y, j, b);
+    regref R; if (!reg_ref(a, b, n, &R)) continue;
+    vx_check(fabs(m->r2y_model->data[j] - (double)R.r2) <= R.t_r2, kb, "n=%d p=%d ny=%d response %d: r2y_model %.17g, R2 of (response, recalculated response) %.17Lg (tol %g)", n, p, ny, j, m->r2y_model->data[j], R.r2, R.t_r2);
+    vx_check(fabs(m->sdec->data[j] - (double)R.rmse) <= R.t_rmse, kb, "n=%d p=%d ny=%d response %d: sdec %.17g, RMSE of (response, recalculated response) %.17Lg (tol %g)", n, p, ny, j, m->sdec->data[j], R.rmse, R.t_rmse);
+    double ob[2] = {m->r2y_model->data[j], m->sdec->data[j] / sc}; h = vx_hash_doubles(ob, 2, h);
+  }
+  vx_outcome(h);
+  DelMLRModel(&m); DelMatrix(&mx); DelMatrix(&my);
+}
+
 static void part_tables(void) {
-  int which = vx_choose("table", 3);
-  if (which < 2) tables_regression(which); else tables_da();
+  int which = vx_choose("table", 4);
+  if (which < 2) tables_regression(which); else if (which == 2) tables_da(); else tables_mlr_model();
 }
 
 static void body(void) {
@@ -424,7 +450,7 @@ static void body(void) {
 
 int main(int argc, char **argv) {
   vg_seed(getenv("VERIF_SEED") ? atol(getenv("VERIF_SEED")) : 0);
-  vx_describe("alphabet", "0: ALL truth vectors in {0,1}^n with both classes x ALL n! rankings of n distinct scores, n=2..6 [thorough ..8; the 4 monotone maps and negation for n<=7]; 1: ALL object permutations of all (truth, ranking) pairs n<=5 [n=6: all permutations x all truths x 48 of 720 rankings]; 2: n in {20,200} [+57,128] x 8 truth patterns x 3 score distributions (uniform, 1e6 x^3, exp(20x)) x 4 [12] value sets x 8 permutations; 3: lengths {2,3,4,5,6,10,200} x scales {1e-6,1,1e6} x offsets {0,1e3*scale} x 5 prediction kinds x 2 [6] value sets x ALL subsets of missing-coded truths (n<=6) or 4 patterns <= 20%%; 4: PLSRegressionStatistics (ny 1..3, nlv 1..3[4]), MLRRegressionStatistics (ny 1..4), PLSDiscriminantAnalysisStatistics (all truth vectors n=4..6, ny 1..2, nlv 1..2, 0..2 missing truths, with/without curve tensors)");
+  vx_describe("alphabet", "0: ALL truth vectors in {0,1}^n with both classes x ALL n! rankings of n distinct scores, n=2..6 [thorough ..8; the 4 monotone maps and negation for n<=7]; 1: ALL object permutations of all (truth, ranking) pairs n<=5 [n=6: all permutations x all truths x 48 of 720 rankings]; 2: n in {20,200} [+57,128] x 8 truth patterns x 3 score distributions (uniform, 1e6 x^3, exp(20x)) x 4 [12] value sets x 8 permutations; 3: lengths {2,3,4,5,6,10,200} x scales {1e-6,1,1e6} x offsets {0,1e3*scale} x 5 prediction kinds x 2 [6] value sets x ALL subsets of missing-coded truths (n<=6) or 4 patterns <= 20%%; 4: PLSRegressionStatistics (ny 1..3, nlv 1..3[4]), MLRRegressionStatistics (ny 1..4), the r2y_model/sdec table of a fitted MLR model (n {6,12}, p 1..2, ny 1..4, 2 scales), PLSDiscriminantAnalysisStatistics (all truth vectors n=4..6, ny 1..2, nlv 1..2, 0..2 missing truths, with/without curve tensors)");
   vx_describe("oracle", "exact integer Mann-Whitney count / (n+ n-) = AUC (tol 16 eps (n+2)); ROC points = (fp/n-, tp/n+) of the objects ranked above, monotone, (0,0)->(1,1); AUC equal under x^3, exp, 2x+5, atan and object permutations, 1-AUC under negation; PR points = (tp/n+, tp/(tp+fp)), recall non-decreasing ending at 1, area = trapezoid from (0,1), in [0,1]; R2/MSE/RMSE/MAE/BIAS = long-double formulas over non-missing truths with forward error allowances, RMSE^2=MSE, MAE<=RMSE, R2<=1, perfect prediction => (1,0,0,0,0); statistic tables = the same definitions per (latent variable, response) on column ny*lv+j");
   vx_set_shard_depth(3);
   vx_expect_outcomes(2000);
